@@ -14,10 +14,12 @@ void _ZN3fmt14BasicFormatterIcNS_12ArgFormatterIcEEE6formatENS_15BasicCStringRef
 #endif
 static int finite_(double v) { return !VF_ISNAN(v) && v != vf_bits2d(0x7ff0000000000000ULL) && v != vf_bits2d(0xfff0000000000000ULL); }
 static double x[NV]; static s32 args[NV];
+/* round half away from zero, exactly: truncation and the fractional part are exact for |v| < 2^52 */
+static double rnd(double v) { double t = (double)(s64)v; double fr = v - t; return fr >= 0.5 ? t + 1.0 : (fr <= -0.5 ? t - 1.0 : t); }
 static int tr(double v) { return v >= 0.5; }       /* documented truth threshold of a logical value */
 void h_value(void) {
   for (u32 i = 0; i < NV; i++) { x[i] = vf_nddouble(); VF_REQUIRE(finite_(x[i])); args[i] = (s32)i; }
-  if (KIND == 9) for (u32 i = 0; i < NV; i++) VF_REQUIRE(x[i] == (double)(s64)x[i] && x[i] > -1e15 && x[i] < 1e15);   /* alldiff ranges over integer variables */
+  if (KIND == 9) for (u32 i = 0; i < NV; i++) VF_REQUIRE(x[i] > -1e15 && x[i] < 1e15);   /* alldiff: values of integer variables as a solver returns them (integral only up to a tolerance) */
   u32 nargs = (KIND == 2 || KIND == 6) ? 1 : (KIND == 3 || KIND == 10) ? 3 : NV;
   double out = 0; u32 rc = w_value(KIND, NV, (char *)x, nargs, (char *)args, (char *)&out);
   VF_ASSERT(rc == 0, "no exception");
@@ -31,7 +33,7 @@ void h_value(void) {
     case 5: f = 0.0; for (u32 i = 0; i < NV; i++) if (tr(x[i])) f = 1.0; break;
     case 6: f = tr(x[0]) ? 0.0 : 1.0; break;
     case 7: { u32 c = 0; for (u32 i = 0; i < NV; i++) if (tr(x[i])) c++; f = (double)c; break; }
-    case 9: f = 1.0; for (u32 i = 0; i < NV; i++) for (u32 j = i + 1; j < NV; j++) if (x[i] == x[j]) f = 0.0; break;
+    case 9: f = 1.0; for (u32 i = 0; i < NV; i++) for (u32 j = i + 1; j < NV; j++) if (rnd(x[i]) == rnd(x[j])) f = 0.0; break;
     default: f = (tr(x[0]) ? tr(x[1]) : tr(x[2])) ? 1.0 : 0.0; break;
   }
   VF_OBS(vf_d2bits(out));
